@@ -28,6 +28,7 @@ RULE = ("random sequences x layouts (header or not and where, line length 1..80,
 RULE += ("; added after the mutation rounds: file names with blanks / non-ASCII letters, relative and pathlib paths; stray non-UTF-8 bytes inside sequence lines; a re-used parser object and the front-end constructor on every fifth variant (also rejected ones); a second object built from the same file after the first was modified; the first cases of every shard are judged again at its end")
 RULE += ("; round 7: residue lines that begin with record keywords of other formats (SQ, ID, AC, SEQRES, ...); files of 70,000 (thorough 300,000) residues as one line and wrapped")
 RULE += ("; round 8: rewrites that keep the file's time stamps (a third of the histories)")
+RULE += ("; round 9: decimal digits of other scripts; header lines of 1-9 kB")
 EXHAUSTIVE = {"quick": False, "thorough": False}
 ASSUMPTIONS = [
     "line breaks are LF, CRLF or CR; a header is a line whose first character is '>'",
